@@ -215,6 +215,17 @@ impl Space for Compiled {
                 for o in ["-03:30", "+05:45", "-00:30", "-11:59", "+14:00"] {
                     now_zones.push(Some(TimeZone::try_from_str(o).expect("offset zone")));
                 }
+                // fixed offsets chosen from the clock so that local time is 00:00..00:14 (either sign), where the
+                // date depends on the last minutes of the reading (the sandwich absorbs a rollover in between)
+                let minute = (std::time::SystemTime::now().duration_since(std::time::UNIX_EPOCH).unwrap().as_secs() / 60 % 1440) as i64;
+                for k in [0i64, 1, 7, 14] {
+                    let off = (minute - k).rem_euclid(1440);
+                    now_zones.push(Some(TimeZone::try_from_str(&format!("-{:02}:{:02}", off / 60, off % 60)).expect("offset zone")));
+                    if off >= 1 {
+                        let pos = 1440 - off;
+                        now_zones.push(Some(TimeZone::try_from_str(&format!("+{:02}:{:02}", pos / 60, pos % 60)).expect("offset zone")));
+                    }
+                }
             }
             for tzn in now_zones {
                 for which in 0..3 {
